@@ -667,7 +667,10 @@ pub fn run_history(tape: &mut Tape, hp: &HistParams, detail: bool) -> HistReport
                         if o.phys != c.phys || oname == name {
                             continue;
                         }
-                        if restamped_post.contains(&(o.phys.clone(), oname.clone())) {
+                        // only a sharded cache maintains the shard it just wrote to
+                        // *after* the insertion ("estimate says far too big"); a
+                        // plain directory is always maintained before it
+                        if matches!(dirs[di].kind, DirKind::Sharded(_)) && restamped_post.contains(&(o.phys.clone(), oname.clone())) {
                             continue;
                         }
                         if o.mtime > c.mtime {
